@@ -46,7 +46,10 @@ DTKIND = z3.Function("DTKIND", I, I)
 DTSIZE = z3.Function("DTSIZE", I, I)
 
 
-def harness(grad_kind):
+def harness(grad_kind, refused=False):
+    """refused=True: the sweep's callee _backward() raises InvalidBackprop at an arbitrary iteration (its contract C09.raise: it does so when it
+    reaches a tensor whose consumers were cleared) -- the scenario of a back-propagation through a partially cleared graph"""
+
     def h(ctx: Ctx):
         cfg = Config()
         cfg.builtins = default_builtins()
@@ -193,8 +196,12 @@ def harness(grad_kind):
             k = ctx.ghost.get("cur_k")
             log.append(("_backward", args[0], k))
             ctx.oblige("C01.sweep.backward_on_kth_of_topo", (args[0].ref == TOPO[k]) if k is not None else False, function=f"{TB}:Tensor.backward")
+            if refused:
+                log.append(("refused",))
+                raise SymRaise(ExcInst(InvalidBackpropCls, ("a tensor upstream had its graph cleared",)))
             return None
 
+        InvalidBackpropCls = type("InvalidBackprop", (Exception,), {})
         cfg.summaries[f"{TB}:Tensor.clear_graph"] = clear_contract
         cfg.summaries[f"{TB}:Tensor._backward"] = backward_contract
         g_entry = H[("Tensor", "_grad")]
@@ -248,6 +255,14 @@ def harness(grad_kind):
             r = interp.call(f, [me, grad], {})
         except SymRaise as e:
             cur = ctx.heap
+            if refused and e.exc.cls is InvalidBackpropCls:
+                # C09: the refusal is loud AND repeatable -- the same exception comes out, and the terminal's graph is not cleared on the way (a
+                # cleared terminal would make the next backward() a silent no-op that leaves stale / partial gradients behind)
+                after = log[log.index(("refused",)) + 1:] if ("refused",) in log else None
+                ctx.oblige(f"C09.sweep[grad={grad_kind}].refusal_propagates_and_leaves_the_graph_uncleared", after is not None and not any(ev[0] == "clear_graph" for ev in after) and not any(ev[0] == "_backward" for ev in after),
+                           after=repr(after), **meta)
+                ctx.oblige(f"C09.sweep[grad={grad_kind}].terminal_keeps_its_creator", cur[("Tensor", "_creator")][me.ref] == H[("Tensor", "_creator")][me.ref], **meta)
+                return
             if e.exc.cls is ValueError and grad_kind != "none":
                 a_shape = ctx.ghost.get("a_shape")
                 ctx.oblige(f"{tag}.rejected_seed_writes_no_gradient", cur[("Tensor", "_grad")][me.ref] == 0, raised="ValueError", **meta)
@@ -318,8 +333,8 @@ def obligations(tier="quick"):
             info["functions"][q] = frontend.source_hash(node)
         except frontend.ExtractionError as e:
             info["unsupported"].append(str(e))
-    for gk in ("none", "array", "tensor", "scalar"):
-        results = explore(harness(gk))
+    for gk, refused in [(g_, False) for g_ in ("none", "array", "tensor", "scalar")] + [("none", True), ("array", True)]:
+        results = explore(harness(gk, refused))
         k = 0
         for r in results:
             if r.outcome == "unsupported":
